@@ -88,7 +88,7 @@ def tlc_inputs(ctx):
         sigs = sigs[:lim]
     # plus `A f(A a)`, `void f(A)` (unnamed, first use) and `A f(void)` (return only) for every aggregate (TLC "ident" mode)
     idn = L.tlc_cached(ctx, "Abi", "MC_Abi_ident.cfg", workers=4, env={"ABI_IN": inp}, timeout=1200)
-    if not idn.ok or len(idn.vcases) != 3 * len(pool):
+    if not idn.ok or len(idn.vcases) != 3 * len(pool) + 27:
         raise vlib.MachineryError("ident run failed: %s" % idn.out[-2000:])
     sigs += [json.loads(v) for v in idn.vcases]
     return pool, sigs
@@ -159,7 +159,7 @@ class SigTU:
             params = [self.tname(p, "a%d" % j if p.get("nm", True) else "", tags.get(j))[0] for j, p in enumerate(s["ps"])]
             plist = ", ".join(params) if params else "void"
             if s["va"]:
-                plist += ", ..."
+                plist = plist + ", ..." if params else "..."
             if s["ret"]["k"] == "void":
                 rt, body = "void", ""
             else:
@@ -168,6 +168,8 @@ class SigTU:
             out.append("%s f%d(%s) { %s }" % (rt, k, plist, body))
             args = [self.tname(p, "", tags.get(j))[1] for j, p in enumerate(s["ps"])] + [self.tname(p, "")[1] for p in s["xs"]]
             out.append("void c%d(void) { f%d(%s); }" % (k, k, ", ".join(args)))
+            # the same call through a pointer to the function
+            out.append("void d%d(void) { typeof(f%d) *fp = f%d; fp(%s); }" % (k, k, k, ", ".join(args)))
         return "\n".join(out) + "\n"
 
 
@@ -249,10 +251,16 @@ def judge_sig(ctx, target, k, s, funcs, src, stats):
         ctx.violation("sig:%s:definition:%s" % (target, what), "function header classes differ from Abi.tla PClass", dict(info, observed=got))
     # call site
     calls = [i for b in c["blocks"] for i in b["insts"] if i["op"] == "call" and i["callee"].get("n") == "f%d" % k]
-    if len(calls) != 1:
-        ctx.violation("sig:%s:call-missing" % target, "no call instruction for the generated call", info)
+    dfn = funcs.get("d%d" % k)
+    pcalls = [i for b in dfn["blocks"] for i in b["insts"] if i["op"] == "call" and i["callee"].get("t") == "tmp"] if dfn else []
+    if len(calls) != 1 or len(pcalls) != 1:
+        ctx.violation("sig:%s:call-missing" % target, "no call instruction for the generated direct / indirect call", info)
         return
-    call = calls[0]
+    for via, call in (("", calls[0]), ("indirect-", pcalls[0])):
+        judge_call(ctx, target, s, call, via, info, pcls, xcls)
+
+
+def judge_call(ctx, target, s, call, via, info, pcls, xcls):
     args, marker = [], -1
     for a in call["cargs"]:
         if a.get("variadic"):
@@ -271,7 +279,7 @@ def judge_sig(ctx, target, k, s, funcs, src, stats):
                       "call of a variadic function with no variable arguments has no `...` marker", info)
         return
     what = "ret" if got["ret"] != s["rcls"] else "marker" if got["args"] == want_args else "arg"
-    ctx.violation("sig:%s:call:%s" % (target, what), "call operand classes differ from Abi.tla PClass/VClass", info)
+    ctx.violation("sig:%s:%scall:%s" % (target, via, what), "call operand classes differ from Abi.tla PClass/VClass", info)
 
 
 # --------------------------------------------------------------------------------------------------
